@@ -29,6 +29,12 @@ func c06Check(nCIDR, nDomain int) {
 	for i := 0; i < nDomain; i++ {
 		name := []byte("d000.example")
 		name[1], name[2], name[3] = byte('0'+i/100), byte('0'+(i/10)%10), byte('0'+i%10)
+		if i%2 == 1 {
+			// the wildcard of the previous exact name: two patterns with one base domain
+			name[3] = byte('0' + (i-1)%10)
+			rm.AddLocalDomainRoute("*."+string(name), uint16(i))
+			continue
+		}
 		rm.AddLocalDomainRoute(string(name), uint16(i))
 	}
 	want := nCIDR + nDomain + 1 // plus the agent-presence route
